@@ -182,7 +182,7 @@ impl Property for C18 {
         if sc.param("searches") > 0 {
             v.hit("run_with_searches");
         }
-        if run.stats.get("send_to_port_0_einval").copied().unwrap_or(0) > 0 {
+        if run.stats.get("fault_send_to_port_0_einval").copied().unwrap_or(0) > 0 {
             v.hit("sends_to_port_0_contact_fail");
         }
         if sc.param("searches") == 0 && last.3 > 2 {
